@@ -869,6 +869,12 @@ class Interp:
                     return BoundMethod(SStr(S.unbox_str(obj.t)), name)
                 if self.branch(z3.And(tg >= 0, tg <= 3)):
                     self.raise_('AttributeError', node=node)
+                # any other object: the attribute is looked up ON IT - an
+                # effect on a (possibly host) object, logged like getattr()
+                from . import models
+                r = models.apply_uf('py.getattr', (obj, name), 'Val')
+                self.calls.append(('getattr', (obj, name), r))
+                return r
         if type(obj).__name__ in ('SMapCell', 'WriteLog', 'SetMapCell',
                                   'Bucket'):
             return BoundMethod(obj, name)
